@@ -780,9 +780,22 @@ def r7(ctx):
         if expect == 'cond':
             want = BoolT('or', (mk_not(truthy(isint)), Cmp('<=', n, sp.Integer(0))))
             got = [ev.conj(pc) for pc, nm in rs if nm == 'ValueError']
-            if len(got) != 1 or not (same(got[0], want)):
+            # the paths that raise, together, must reject exactly the documented complement: decided by truth table over
+            # the two atoms (is an int / is <= 0) — guard clauses, one combined test and De Morgan forms are the same predicate
+            from .c17 import _bnorm, _atoms, _evalb
+            import itertools as _it
+            gotn = [_bnorm(g) for g in got]
+            wantn = _bnorm(want)
+            atoms = {}
+            for g in gotn + [wantn]:
+                _atoms(g, atoms)
+            keys = sorted(atoms)
+            equal = bool(got) and len(keys) <= 4 and all(
+                any(_evalb(g, dict(zip(keys, bits))) for g in gotn) == _evalb(wantn, dict(zip(keys, bits)))
+                for bits in _it.product([False, True], repeat=len(keys)))
+            if not equal:
                 probs.append('for mode="subpixels" the rejection condition is '
-                             f'{show(got[0], 200) if got else "absent"}; documented domain is a strictly '
+                             f'{" or ".join(show(g, 120) for g in got) if got else "absent"}; documented domain is a strictly '
                              'positive int, i.e. reject iff not isinstance(subpixels, int) or subpixels <= 0')
     if probs:
         ctx.bad('PixelRegion._validate_mode', 'predicate', '; '.join(probs), f.loc())
